@@ -64,13 +64,18 @@ def run(ctx):
     R2 = 'C14-R2'
     ctx.rule(R2, 'every function whose closures contain integer Div/Rem is called only from a function that passes the '
                  'divisor through safen_dividend first (x/0 and x%0 yield NULL, never a panic)')
-    for fn, op in (('unchecked_div', 'Div'), ('rem', 'Rem')):
-        root = OPS + fn
-        if not ctx.anchor(R2, root, root in prog.bodies):
-            continue
-        kernels = int_ops(prog, root, [op])
-        if not ctx.anchor(R2, f'{root}: integer {op} kernels', kernels):
-            continue
+    div_roots = []
+    for b in prog.roots():
+        if b.name.startswith(OPS) and int_ops(prog, b.name, ['Div', 'Rem']):
+            div_roots.append(b.name)
+    ctx.floor(R2, len(div_roots), 2, 'functions with integer Div/Rem kernels')
+    for root in sorted(div_roots):
+        fn = root.rsplit('::', 1)[-1]
+        kernels = int_ops(prog, root, ['Div', 'Rem'])
+        op = 'Rem' if any(d.startswith('Rem') for _, _, d in kernels) else 'Div'
+        sym = '%' if op == 'Rem' else '/'
+        for b in prog.group(root):
+            ctx.functions_analysed.add(b.name)
         callers = [c for c in prog.calls_matching(suffix('ArrayImpl::' + fn)) if (c.name or '').endswith('::' + fn)
                    and c.body.root != root]
         guarded_self = bool(done_sites(prog, prog.bodies[root], 'ops::safen_dividend'))
@@ -82,8 +87,7 @@ def run(ctx):
             ctx.ob(R2, f'ArrayImpl::{fn}·zero-guard·{short(c.body.root)}', ok,
                    f'{c.body.name} calls {fn} (integer {op} kernels) ' + ('after' if ok else 'WITHOUT') + ' safen_dividend',
                    [site(c.body, c.bb)],
-                   what=f'`{ "%" if fn == "rem" else "/"}` on integers bypasses the zero guard: x {"%" if fn == "rem" else "/"} 0 '
-                        f'panics instead of yielding NULL')
+                   what=f'`{sym}` on integers bypasses the zero guard: x {sym} 0 panics instead of yielding NULL')
             ctx.functions_analysed.add(c.body.name)
 
     R3 = 'C14-R3'
